@@ -25,6 +25,9 @@ func runCases(run *evid.Run, key string, total int, children, race bool, opts Ch
 	}
 	opts.Key = key
 	opts.Race = race
+	if opts.RaceInScope == nil {
+		opts.RaceInScope = raceInLibrary
+	}
 	if opts.Batches == 0 {
 		opts.Batches = 2 * Workers()
 	}
